@@ -1305,6 +1305,35 @@ class Walker:
                     return
                 if rr is not None and rr in ("core::bool::<impl bool>::then", "std::bool::<impl bool>::then", "core::bool::<impl bool>::then_some", "std::bool::<impl bool>::then_some", "bool::<impl bool>::then", "bool::<impl bool>::then_some") and len(args) == 2 and t["t"] is not None and self._desugar_bool_then(rr.endswith("then_some"), args, t, st, path, visited, bb):
                     return
+                if rr is not None and short(rr) == "Option::zip" and len(args) == 2 and t["t"] is not None:
+                    # a.zip(b) is the match on the pair it abbreviates: Some((x, y)) when both are Some, None otherwise
+                    def _variants(x):
+                        if x[0] in ("agg", "enumc") and x[2] in ("Some", "None"):
+                            return [(x[2], None)]
+                        known = st["known"].get(("variant", x))
+                        if known is not None:
+                            return [(known[1], None)]
+                        return [("Some", ("variant", x)), ("None", ("variant", x))]
+                    for va, atom_a in _variants(args[0]):
+                        for vb, atom_b in (_variants(args[1]) if va == "Some" else [(None, None)]):
+                            st2 = {"env": dict(st["env"]), "heap": dict(st["heap"]), "known": dict(st["known"]), "epoch": st["epoch"], "subst": dict(st["subst"]), "mutn": st.get("mutn", 0)}
+                            p2 = Path()
+                            p2.guards = list(path.guards)
+                            p2.effects = list(path.effects)
+                            p2.blocks = list(path.blocks)
+                            for atom, v_ in ((atom_a, va), (atom_b, vb)):
+                                if atom is not None:
+                                    st2["known"][atom] = ("variant", v_)
+                                    p2.guards.append((atom, ("variant", v_)))
+                            if va == "Some" and vb == "Some":
+                                pa = self.ev._project1(("downcast", args[0], "Some"), {"f": "0", "i": 0, "adt": "std::option::Option", "ty": ""})
+                                pb = self.ev._project1(("downcast", args[1], "Some"), {"f": "0", "i": 0, "adt": "std::option::Option", "ty": ""})
+                                v2 = ("agg", "std::option::Option", "Some", ("0",), (("tuple", (pa, pb)),))
+                            else:
+                                v2 = ("enumc", "std::option::Option", "None")
+                            self._assign(t["dest"], v2, st2, p2, bb)
+                            self._go(t["t"], st2, p2, visited)
+                    return
                 if rr is not None and _SLICE_GET.match(rr) and len(args) == 2 and t["t"] is not None and fn is not None and "Range" not in " ".join(fn.get("targs", [])):
                     # v.get(i) is the guarded index it abbreviates: Some(&v[i]) when i < len(v), None otherwise
                     atom = mk_lt(args[1], mk_len(args[0]))
